@@ -17,6 +17,7 @@ FIRST = {
     "S08b-scheduler-start-count-ignores-retraction": ("missed", "C08 gained scripted_trace (retracting plan-ahead policy whose attributes match the offers it asks for)"),
     "S17b-stale-topological-order-cache": ("missed", "C17 gained graph_history: all clauses re-asked after every add_node/add_child/remove on one Graph object"),
     "S01b-reload-profile-skips-booking": ("missed", None),
+    "S13b-edf-sorts-by-raw-deadline-number": ("missed", "C13 now writes some deadlines in milliseconds (class mixed_time_units): priorities are instants, not numerals"),
 }
 NOTES = {
     "S01b-reload-profile-skips-booking": "NOT CAUGHT, by decision: the change only manifests when a profile that is already resident on a worker is loaded again with a larger "
